@@ -49,12 +49,15 @@ static std::string joinHexLines(const std::string& text) {
 }
 
 // one execution of an already analysed program; returns the canonical result line
-static std::string runOnce(Program& prog, bool echo, std::function<bool(size_t)> gc, bool* failed = nullptr) {
+static std::string runOnce(Program& prog, bool echo, std::function<bool(size_t)> gc, bool* failed = nullptr,
+                           bool asNonLastShot = false) {
     std::string out;
     std::string echoText, warnText;
     try {
-        RuntimeEvaluator ev(true);
+        // asNonLastShot: configured exactly as cli.cpp configures every shot but the last (no operation log, no exit warnings)
+        RuntimeEvaluator ev(!asNonLastShot);
         ev.setEcho(echo);
+        if (asNonLastShot) ev.setWarnOnExit(false);
         if (gc) ev.verifSetGcSchedule(gc);
         {
             Capture co(std::cout), ce(std::cerr);
@@ -186,16 +189,23 @@ int main() {
                 // echo "01": the shared Program runs with echo off (as multi-shot mode does), the fresh pipelines with echo on;
                 // the echo text is then left out of the comparison
                 bool mixed = a[2] == "01";
+                auto cut = [](std::string& r, const char* from, const char* to) {
+                    auto b = r.find(from);
+                    auto e = r.find(to);
+                    if (b != std::string::npos && e != std::string::npos && e > b) r.erase(b, e - b);
+                };
                 auto strip = [&](std::string r) {
                     if (!mixed) return r;
-                    auto b = r.find(" echo=");
-                    auto e = r.find(" tracked=");
-                    if (b != std::string::npos && e != std::string::npos && e > b) r.erase(b, e - b);
+                    cut(r, " echo=", " tracked=");
+                    // every shot but the last runs without operation log and exit warnings in multi-shot mode
+                    cut(r, " qasm=", " warn=");
+                    cut(r, " warn=", " state ");
                     return r;
                 };
                 setDraws(a[4]);
                 std::string shared, fresh;
-                for (int s = 0; s < n; ++s) shared += (s ? " || " : "") + strip(runOnce(*prog, mixed ? false : a[2] == "1", nullptr));
+                for (int s = 0; s < n; ++s)
+                    shared += (s ? " || " : "") + strip(runOnce(*prog, mixed ? false : a[2] == "1", nullptr, nullptr, mixed && s < n - 1));
                 setDraws(a[4]);
                 for (int s = 0; s < n; ++s) {
                     std::string e2;
